@@ -9,6 +9,7 @@ exactly one runs at a time).  Invariants are asserted at those hooks, i.e. atomi
   M5 no deadlock state (all unfinished threads blocked, or parked in retry sleeps with no state change)
 Part B (fault enumeration): DiskCacher writes failing at every line / every write call, and cache files cut at every byte.
 Part D (real processes): spawn-ed workers share RawArray + mp.Lock + a DiskCacher directory; offline event-log check.
+Part E: the ConcurrentCacher that CobaMultiprocessor itself builds for its workers, in front of a DiskCacher.
 Part C (real threads): the real class with real threading.Lock under sys.monitoring LINE-level yield injection; offline
 check of the recorded event log (M2, M3, M4).
 """
@@ -27,7 +28,7 @@ PLAN  = {"quick":    {"shards": 16, "cases": 6400,   "timeout": 900,  "budget_s"
 REQUIRED = ["sched.histories", "sched.contended-index", "hook.lock.acquire", "hook.array.set", "hook.inner.write", "hook.inner.read",
             "hook.sleep", "oracle.M1.read-enter", "oracle.M1.write-enter", "oracle.M2.getter", "oracle.M3.complete-value",
             "oracle.M4.quiescence", "inject.getter-raise", "inject.body-raise", "disk.write-fault", "disk.cut-byte",
-            "threads.runs", "threads.M3.complete-value", "procs.runs", "procs.M2.getter", "procs.M3.complete-value", "procs.M4.quiescence"]
+            "threads.runs", "threads.M3.complete-value", "procs.runs", "procs.M2.getter", "procs.M3.complete-value", "procs.M4.quiescence", "cm.runs", "cm.M2.getter", "cm.M3.complete-value"]
 ASSUMPTIONS = ["a caller never nests get_set on two different keys whose 16-bit hashes collide; nested calls follow a global key order",
                "granularity of part A = lock acquisitions/releases, shared-counter reads/writes, inner-cache operations, retry sleeps",
                "a watchdog or step cap firing without an established deadlock state is inconclusive, not a violation"]
@@ -538,6 +539,35 @@ def process_stress(ctx, rng, runs):
             shutil.rmtree(wd, ignore_errors=True)
     return viol
 
+# ====================================================================================== part E: the cacher CobaMultiprocessor builds
+def coba_multiprocessor_cacher(ctx, rng, runs):
+    import subprocess, json
+    viol = []
+    for r in range(runs):
+        wd = tempfile.mkdtemp(prefix="vf-c19cm-")
+        try:
+            outp = os.path.join(wd, "out.json")
+            try:
+                subprocess.run([sys.executable, "-W", "ignore", "-m", "vf.c19_cm", wd, str(rng.randrange(1 << 30)), outp], timeout=150, capture_output=True, text=True)
+            except subprocess.TimeoutExpired:
+                ctx.note_inconclusive("coba-multiprocessor-cacher-timeout"); continue
+            if not os.path.exists(outp):
+                ctx.note_inconclusive("coba-multiprocessor-cacher-no-output"); continue
+            out = json.load(open(outp))
+            ctx.count("cm.runs"); ctx.case(("cm", out["nkeys"], out["nproc"], out["nitems"], r))
+            if out.get("raised"): viol.append(("cm/call-raised", out["raised"])); continue
+            outs = out.get("outputs", [])
+            ctx.count("cm.M3.complete-value", len(outs))
+            bad = [o for o in outs if o[0] != "ok"]
+            if bad: viol.append((f"M3/cm/{'caller-exception' if bad[0][0].startswith('raise') else 'partial-value-served'}", f"workers of one CobaMultiprocessor run got {bad[:3]}"))
+            if len(outs) != out["nitems"]: viol.append(("cm/lost-outputs", f"{len(outs)} outputs for {out['nitems']} items"))
+            ctx.count("cm.M2.getter", len(out["getter_calls"]))
+            twice = {k: n for k, n in Counter(out["getter_calls"]).items() if n > 1}
+            if twice: viol.append(("M2/cm/getter-ran-more-than-once", f"getter calls per key {twice} although nothing was removed ({out['nproc']} worker processes)"))
+        finally:
+            shutil.rmtree(wd, ignore_errors=True)
+    return viol
+
 # ====================================================================================== entry points
 def run_shard(ctx):
     cnt = Counter()
@@ -547,6 +577,7 @@ def run_shard(ctx):
     for sig, what in thread_stress(ctx, ctx.rng, 3 if ctx.tier == "quick" else 40): ctx.violation(sig, what, {"part": "threads"})
     if ctx.shard % 4 == 0 or ctx.tier == "thorough":
         for sig, what in process_stress(ctx, ctx.rng, 1 if ctx.tier == "quick" else 6): ctx.violation(sig, what, {"part": "processes"})
+        for sig, what in coba_multiprocessor_cacher(ctx, ctx.rng, 2 if ctx.tier == "quick" else 8): ctx.violation(sig, what, {"part": "coba-multiprocessor"})
     i = 0
     while i < n_sched and ctx.time_left() > 0:
         spec = gen_case(ctx.rng)
